@@ -123,8 +123,8 @@ class Report:
         lines = []
         for o, k in known_hit:
             lines.append(
-                "KNOWN-FINDING: property=%s %s [%s %s] %s"
-                % (self.pid, k.get("id", ""), o.rule, o.site, k.get("what", o.instance))
+                "KNOWN-FINDING: property=%s %s rule=%s key=%s at %s: fails \"%s\" -- %s"
+                % (self.pid, k.get("id", ""), o.rule, o.key, o.site, o.instance, k.get("short", k.get("what", ""))[:160])
             )
         for o in new_viol:
             h = hashlib.sha1((self.pid + o.rule + o.key).encode()).hexdigest()[:12]
